@@ -181,6 +181,7 @@ func (t *Queue[T]) Poll(waitIfEmpty bool) T {
 		polledElement := heap.Pop(&t.heap).(*generalheap.HeapElement[HeapKey, *QueueElement[T]])
 		// release locks
 		t.heapMutex.Unlock()
+		verifYield("poll:popped", t, polledElement.Value)
 
 		timer := time.NewTimer(time.Until(time.Time(polledElement.Key)))
 
